@@ -130,7 +130,7 @@ class C11(Check):
             c = self._case(ops)
             if c:
                 out.append(c)
-        out += self.exhaustive(12 if n >= 2000 else 4)
+        out += self.exhaustive(6 if n >= 2000 else 4)
         return out
 
     # ------------------------------------------------------------------
@@ -370,8 +370,8 @@ class C11(Check):
             cases.append(E.gen_history(rng, max_edits=25)[0])
         # every state of the exhaustive small scope (one history each), checked at its end
         if not getattr(self, 'exh_hists', None):
-            self.exhaustive(12 if n >= 2000 else 4)
-        small = [h + self.SMALL_PROBES for h in self.exh_hists]
+            self.exhaustive(5 if n >= 2000 else 4)
+        small = [h + self.SMALL_PROBES for h in self.exh_hists if len(h) <= 5]
         self._bump('search-exhaustive-states', len(small))
         per_key = {}
         for ops in small + cases:
